@@ -380,9 +380,16 @@ def observe(proto, rng_np, bindings: list[dict]) -> tuple[list[dict], dict]:
 # ----------------------------------------------------------------------------- the check
 
 
+CORPUS = [("primitives.lax", "scan_two_diff_lengths")]      # listed defect: exported and observed on every run
+
+
 def export_plan(rng: common.Rng, thorough: bool) -> list:
     import progs
     plan = []
+    by_key = {(p.get("context"), p["testcase"]): p for p in progs.plugin_params()}
+    for key in CORPUS:
+        if key in by_key:
+            plan.append((progs.plugin_desc(by_key[key]), progs.plugin_cfg(by_key[key])))
     core = progs.core_programs(rng, n_random=10 if not thorough else 80, max_depth=3 if not thorough else 4)
     for d in core:
         plan.append((d, dict(progs.default_cfg(), mode="proto")))
@@ -392,7 +399,7 @@ def export_plan(rng: common.Rng, thorough: bool) -> list:
             plan.append((d, cfg))
     params = progs.plugin_params()
     if thorough:
-        chosen = params
+        chosen = rng.shuffle(params)        # seeded order: a budget cut drops a different tail per seed
     else:
         dyn = [p for p in params if str(p["testcase"]).endswith(("_dynamic", "_dynamic_f64"))
                and not str(p.get("context", "")).startswith("examples.")]
